@@ -1018,3 +1018,21 @@ package argmapper
 //@   ensures  [no-user-code] nexec == old(nexec) && failed == old(failed)
 //@   assigns  rvstore, rvfresh
 //@   modifies nothing
+
+// ---------------------------------------------------------------- value_set.go: lookups (C15)
+//@ func (*ValueSet).Named
+//@   requires vs != nil
+//@   pure
+//@   ensures [by-name] result == vs.namedValues[n]
+//@ func (*ValueSet).Typed
+//@   requires vs != nil
+//@   pure
+//@   ensures [by-type] result == vs.typedValues[t]
+//@ func (*ValueSet).TypedSubtype
+//@   requires vs != nil && forall(j, int, imp(0 <= j && j < len(vs.values), vs.values[j] != nil))
+//@   ensures [exact-type-and-subtype] imp(result != nil, result.Type == t && result.Subtype == st && exists(j, int, 0 <= j && j < len(vs.values) && vs.values[j] == result))
+//@   ensures [first-match] imp(result != nil, exists(j, int, 0 <= j && j < len(vs.values) && vs.values[j] == result && forall(i, int, imp(0 <= i && i < j, !(vs.values[i].Type == t && vs.values[i].Subtype == st)))))
+//@   ensures [nil-means-no-match] imp(result == nil, forall(j, int, imp(0 <= j && j < len(vs.values), !(vs.values[j].Type == t && vs.values[j].Subtype == st))))
+//@   assigns nothing
+//@   modifies nothing
+//@   loop 1 invariant forall(j, int, imp(0 <= j && j < idx1, !(vs.values[j].Type == t && vs.values[j].Subtype == st)))
